@@ -11,28 +11,6 @@ Import ListNotations.
 Open Scope string_scope.
 Open Scope list_scope.
 
-(* ---------- printed names ---------- *)
-Definition show_items := fix go (l : list fty) : string :=
-  match l with [] => ""%string | x :: l' => (", " ++ show_fty x ++ go l')%string end.
-Lemma show_items_print : forall r, Forall (fun t => show_fty t = print_ty t) r ->
-  (show_items r ++ "]")%string = fold_right (fun b acc => (", " ++ print_ty b ++ acc)%string) "]"%string r.
-Proof.
-  intros r H. induction H as [|x l Hx _ IH]; [reflexivity|].
-  change (show_items (x :: l)) with (", " ++ show_fty x ++ show_items l)%string. cbn [fold_right].
-  rewrite <- IH, Hx. rewrite !append_assoc. reflexivity.
-Qed.
-Lemma show_fty_print : forall t, show_fty t = print_ty t.
-Proof.
-  induction t using fty_ind'; [reflexivity|].
-  destruct args as [|a r].
-  - simpl. rewrite append_nil_r'. reflexivity.
-  - inversion H as [|? ? Ha Hr]; subst.
-    change (show_fty (FDecl n (a :: r))) with (n ++ "[" ++ show_fty a ++ show_items r ++ "]")%string.
-    rewrite (show_items_print r Hr), Ha. reflexivity.
-Qed.
-Lemma compile_ty_decl : forall n a, compile_ty (FDecl n a) = CDecl (new_id (n ++ print_targs a)).
-Proof. intros n a. unfold compile_ty. rewrite show_fty_print, print_ty_decl. reflexivity. Qed.
-
 Lemma find_decl_data_in : forall k l, In k (map fdaname l) -> exists d, find_decl (map compile_data l) (new_id k) = Some d.
 Proof.
   intros k l. induction l as [|x r IH]; intros H; simpl in *; [contradiction|].
@@ -80,16 +58,25 @@ Section DefsTg.
   Hypothesis HtyF : forall t, ty_names_ok t = true -> has_inst_p stF t -> tyd D C (compile_ty t) = true.
   Hypothesis HdefF : forall f d, FunTyping.find_def fs f = Some d ->
     exists d', ffind_def q f = Some d' /\ fdctx d' = fdctx d /\ fdret d' = fdret d.
+  Hypothesis HdataF : forall td targs, In td ts -> td_pol td = FData -> targs_ok ts td targs ->
+    has_inst_p stF (FDecl (td_name td) targs) ->
+    exists cs, find_decl D (new_id (td_name td ++ print_targs targs))
+               = Some (mkct CData (new_id (td_name td ++ print_targs targs)) (map compile_ctor cs))
+      /\ Forall2 (Rdata stF td targs) (td_xtors td) cs.
+  Hypothesis HcodataF : forall td targs, In td ts -> td_pol td = FCodata -> targs_ok ts td targs ->
+    has_inst_p stF (FDecl (td_name td) targs) ->
+    exists ds, find_decl C (new_id (td_name td ++ print_targs targs))
+               = Some (mkct CCodata (new_id (td_name td ++ print_targs targs)) (map compile_dtor ds))
+      /\ Forall2 (Rcodata stF td targs) (td_xtors td) ds.
 
   Lemma def_check_gen_ptg : forall eager d st d' st',
-    core_frag (fdbody d) = true ->
     ctx_names_ok (fdctx d) = true -> ty_names_ok (fdret d) = true -> term_names_ok (fdbody d) = true ->
     tables ts fs st -> pinv ts st -> def_check_gen eager d st = COk (d', st') ->
     grows st' stF ->
     (calls_main (fdbody d') = true -> calls_main_prog q = true) ->
     def_tyguard_src q D C d' = true.
   Proof.
-    intros eager d st d' st' Hf Hmc Hmr Hmb Tb I H GF Hcm. unfold def_check_gen in H.
+    intros eager d st d' st' Hmc Hmr Hmb Tb I H GF Hcm. unfold def_check_gen in H.
     apply cbind_ok in H. destruct H as [[] [Hnd H]].
     apply cbind_ok in H. destruct H as [st1 [H1 H]].
     apply cbind_ok in H. destruct H as [st2a [H2 H]].
@@ -108,32 +95,30 @@ Section DefsTg.
     assert (CI : ctx_inst stF (fdctx d)).
     { intros b Hb. eapply has_inst_grows; [exact G1F|]. apply declared_has_inst.
       unfold ctx_declared in C1. rewrite forallb_forall in C1. auto. }
-    destruct (check_term_gen_ptg ts fs W q D C stF HtyF HdefF (fdbody d) eager st2 (fdctx d) (fdret d) body' st' (compile_ctx (fdctx d))
-                Hf Hmb Hmc Hmr (tables_same _ _ _ _ Tb S02) I2 H3 GF HiR (ctx_rel_init _ Hnd) CI Hcm) as [K1 [K2 _]].
+    destruct (check_term_gen_ptg ts fs W q D C stF HtyF HdefF HdataF HcodataF (fdbody d) eager st2 (fdctx d) (fdret d) body' st' (compile_ctx (fdctx d))
+                Hmb Hmc Hmr (tables_same _ _ _ _ Tb S02) I2 H3 GF HiR (ctx_rel_init _ Hnd) CI Hcm) as [K1 [K2 _]].
     unfold def_tyguard_src. simpl. rewrite nodup_str_eq. unfold fvars. rewrite Hnd, K1, (has_ty_of _ _ K2), (HtyF _ Hmr HiR).
     rewrite !andb_true_r. unfold ctx_tyd, compile_ctx. apply forallb_forall. intros cb Hcb. apply in_map_iff in Hcb. destruct Hcb as [b [<- Hb]]. simpl.
     apply HtyF; [eapply ctx_names_ok_in; eassumption|apply CI; exact Hb].
   Qed.
 
   Lemma check_defs_gen_ptg : forall eager ds st ds' st',
-    forallb (fun d => core_frag (fdbody d)) ds = true ->
     (forall d, In d ds -> ctx_names_ok (fdctx d) = true /\ ty_names_ok (fdret d) = true /\ term_names_ok (fdbody d) = true) ->
     tables ts fs st -> pinv ts st -> check_defs_gen eager ds st = COk (ds', st') ->
     grows st' stF ->
     (forall d', In d' ds' -> calls_main (fdbody d') = true -> calls_main_prog q = true) ->
     forallb (def_tyguard_src q D C) ds' = true.
   Proof.
-    intros eager ds. induction ds as [|d r IH]; intros st ds' st' Hf Hm Tb I H GF Hcm.
+    intros eager ds. induction ds as [|d r IH]; intros st ds' st' Hm Tb I H GF Hcm.
     - simpl in H. inversion H; subst. reflexivity.
     - simpl in H. apply cbind_ok in H. destruct H as [[d' st1] [H1 H]].
       apply cbind_ok in H. destruct H as [[r' st2] [H2 H]]. inversion H; subst.
-      simpl in Hf. apply andb_true_iff in Hf. destruct Hf as [Hfd Hfr].
       destruct (Hm d (or_introl eq_refl)) as [Hc [Hr Hb]].
       destruct (def_check_gen_psound ts fs W eager d st d' st1 Hc Hr Hb Tb I H1) as [_ [I1 [S1 [G1 _]]]].
       destruct (check_defs_gen_psound ts fs W eager r st1 r' st' (fun d0 Hd0 => Hm d0 (or_intror Hd0)) (tables_same _ _ _ _ Tb S1) I1 H2)
         as [_ [I2 [S2 [G2 _]]]].
-      simpl. rewrite (def_check_gen_ptg eager d st d' st1 Hfd Hc Hr Hb Tb I H1 (grows_trans _ _ _ G2 GF) (Hcm d' (or_introl eq_refl))).
-      simpl. apply (IH st1 r' st' Hfr (fun d0 Hd0 => Hm d0 (or_intror Hd0)) (tables_same _ _ _ _ Tb S1) I1 H2 GF).
+      simpl. rewrite (def_check_gen_ptg eager d st d' st1 Hc Hr Hb Tb I H1 (grows_trans _ _ _ G2 GF) (Hcm d' (or_introl eq_refl))).
+      simpl. apply (IH st1 r' st' (fun d0 Hd0 => Hm d0 (or_intror Hd0)) (tables_same _ _ _ _ Tb S1) I1 H2 GF).
       intros d0 Hd0. apply Hcm. right. exact Hd0.
   Qed.
 End DefsTg.
@@ -269,17 +254,3 @@ Proof.
   apply perm_names_le. apply Permutation_sym. rewrite Hq. apply decl_names_perm. exact Hcol.
 Qed.
 
-Definition core_frag_prog (p : fprog) : bool := forallb (fun d => core_frag (fdbody d)) (fdefs (fpdecls p)).
-
-Theorem check_gen_tyguard_src_core : forall eager p q,
-  prog_names_ok p = true -> no_cont_decl p = true -> core_frag_prog p = true ->
-  check_gen eager p = COk q -> prog_tyguard_src q = true.
-Proof.
-  intros eager p q Hm Hnc Hf H.
-  destruct (check_gen_run_defs eager p q Hm H) as [st [st1 [das [cos [W [Tb [I0 [Hdefs [I1 [Hcol [Hq Hnm]]]]]]]]]]].
-  unfold prog_tyguard_src. rewrite (check_gen_decls_tyguard eager p q Hm Hnc H). simpl.
-  destruct (check_defs_gen_sigs _ _ _ _ _ Hdefs) as [_ Hsig].
-  eapply (check_defs_gen_ptg _ _ W q (cdata_of q) (ccodata_of q) st1
-            (final_world_types q st1 das cos Hcol Hq) Hsig eager _ st (fcpdefs q) st1 Hf Hnm Tb I0 Hdefs (grows_refl _)).
-  intros d' Hd' Hc. unfold calls_main_prog. apply existsb_exists. exists d'. auto.
-Qed.
